@@ -419,7 +419,9 @@ unsafe impl<B: BufMut, const N: usize> BufMutSlice<N> for [B; N] {
     }
 
     fn total_spare_capacity(&self) -> u32 {
-        self.iter().map(BufMut::spare_capacity).sum()
+        self.iter()
+            .map(BufMut::spare_capacity)
+            .fold(0, u32::saturating_add)
     }
 
     fn has_spare_capacity(&self) -> bool {
@@ -856,7 +858,7 @@ macro_rules! buf_slice_for_tuple {
             }
 
             fn total_spare_capacity(&self) -> u32 {
-                0 $( + self.$index.spare_capacity())+
+                0u32 $( .saturating_add(self.$index.spare_capacity()) )+
             }
 
             fn has_spare_capacity(&self) -> bool {
